@@ -195,8 +195,24 @@ func lifetime(h http.Header, status int) (lo, hi int64, src string) {
 		if valid {
 			return satMulSec(l), satMulSec(h2), "max-age"
 		}
-		// invalid max-age: encouraged to be treated as stale; falling back to Expires is tolerated
-		_, eh := expLife()
+		// invalid max-age (non-integer, negative): RFC 9111 §4.2.1 encourages treating the response as
+		// stale, but ignoring the broken directive is tolerated: the upper bound is the lifetime the
+		// other rules would give, the lower bound 0.
+		h3 := h.Clone()
+		h3.Del("Cache-Control")
+		rest := []string{}
+		for k, v := range cc {
+			if k != "max-age" {
+				if v != "" {
+					k += "=" + v
+				}
+				rest = append(rest, k)
+			}
+		}
+		if len(rest) > 0 {
+			h3.Set("Cache-Control", strings.Join(rest, ", "))
+		}
+		_, eh, _ := lifetime(h3, status)
 		return 0, eh, "max-age-invalid"
 	}
 	if len(h.Values("Expires")) > 0 {
